@@ -52,10 +52,12 @@ type scheduler struct {
 	spawned  int
 	switches int
 	inRunAll bool
+	preemptBound int // -1: unbounded
+	preemptions  int
 }
 
 func newScheduler(i *interpreter) *scheduler {
-	return &scheduler{i: i, ack: make(chan struct{})}
+	return &scheduler{i: i, ack: make(chan struct{}), preemptBound: -1}
 }
 
 func (s *scheduler) runMain(f func()) {
